@@ -9,6 +9,55 @@ pub fn sorted(s: &std::collections::HashSet<String>) -> Vec<String> {
     v
 }
 
+fn fv_json(v: &Option<gene::FieldValue>) -> Value {
+    use gene::values::Number;
+    use gene::FieldValue;
+    match v {
+        None => Value::Null,
+        Some(FieldValue::String(s)) => json!({ "s": s }),
+        Some(FieldValue::Number(Number::Int(i))) => json!({ "i": i }),
+        Some(FieldValue::Number(Number::Uint(u))) => json!({ "u": u }),
+        Some(FieldValue::Number(Number::Float(_))) => json!({ "f": null }),
+        Some(FieldValue::Bool(b)) => json!({ "b": b }),
+        Some(FieldValue::Some) => json!("some"),
+        Some(FieldValue::None) => json!("none"),
+    }
+}
+
+/// the result seen through its public methods, its derived getter, its serialized form, `Clone` and `PartialEq`
+fn sr_queries(sr: &ScanResult) -> Value {
+    use gene::FieldGetter;
+    let g = |p: &[&str]| -> Value {
+        let segs: Vec<String> = p.iter().map(|s| s.to_string()).collect();
+        fv_json(&sr.get_from_iter(segs.iter()))
+    };
+    let ser = serde_json::to_value(sr).unwrap_or(Value::Null);
+    let keys: Vec<String> = match serde_json::to_string(sr) {
+        // keys in the order they are written
+        Ok(text) => {
+            let mut ks: Vec<(usize, String)> = ser.as_object().map(|o| o.keys().filter_map(|k| text.find(&format!("\"{k}\":")).map(|i| (i, k.clone()))).collect()).unwrap_or_default();
+            ks.sort();
+            ks.into_iter().map(|x| x.1).collect()
+        }
+        Err(_) => vec!["<not serializable>".into()],
+    };
+    let back: Option<ScanResult> = serde_json::from_value(ser).ok();
+    let mut expect = sr.clone();
+    expect.filtered = false;
+    json!({
+        "det": sr.is_detection(), "empty": sr.is_empty(), "only_filter": sr.is_only_filter(), "is_filtered": sr.is_filtered(),
+        "tags_all": sr.tags.iter().all(|t| sr.contains_tag(t)), "tag_absent": sr.contains_tag("\0nope"),
+        "actions_all": sr.actions.iter().all(|t| sr.contains_action(t)), "action_absent": sr.contains_action("\0nope"),
+        "attack_lower_all": sr.attack.iter().all(|t| sr.contains_attack_id(t.to_ascii_lowercase())),
+        "attack_absent": sr.contains_attack_id("t0"),
+        "get": [g(&[]), g(&["filtered"]), g(&["severity"]), g(&["rules"]), g(&["tags"]), g(&["attack"]), g(&["actions"]),
+                g(&["filtered", "x"]), g(&["severity", ""]), g(&["nope"]), g(&[""])],
+        "ser_keys": keys,
+        "rt_filtered": back.as_ref().map(|b| b.filtered), "rt_same": back.as_ref().map(|b| *b == expect),
+        "clone_eq": sr.clone() == *sr,
+    })
+}
+
 pub fn sr_json(sr: &Option<ScanResult>) -> Value {
     match sr {
         None => Value::Null,
@@ -19,6 +68,7 @@ pub fn sr_json(sr: &Option<ScanResult>) -> Value {
             "actions": sorted(&sr.actions),
             "filtered": sr.filtered,
             "severity": sr.severity,
+            "q": sr_queries(sr),
         }),
     }
 }
